@@ -109,7 +109,7 @@ async def cosub(log):
 SUPPORT = dict(MyErr=MyErr, Other=Other, MyBase=MyBase, Susp=Susp, Ready=Ready, sub=sub, asub=asub, cosub=cosub)
 
 PRELUDE = ('import typing\n'
-           'from typing import Any, Optional, Union\n'
+           'from typing import Any, Never, NoReturn, Optional, Union\n'
            'from collections.abc import (Generator, Iterator, Iterable, AsyncGenerator, AsyncIterator, AsyncIterable, '
            'Coroutine)\n')
 
@@ -318,7 +318,14 @@ def make_source(rng, kind, plant):
     else:
         pool = ['int', 'int', "'int'", 'Coroutine[Any, Any, int]', 'typing.Coroutine[Any, Any, int]', 'Union[int, bytes]']
     p = rng.random()
-    if planted or p < .72:
+    if kind == 'coroutine' and not planted and rng.random() < .12:
+        # a coroutine that never returns normally (every return became a raise), annotated as such: the body must
+        # still run, suspend, receive thrown exceptions and clean up exactly like the undecorated one
+        hint = rng.choice(['NoReturn', 'Never', 'Coroutine[Any, Any, NoReturn]', 'typing.Coroutine[Any, Any, Never]', "'NoReturn'"])
+        lines = [(l_[:len(l_) - len(l_.lstrip())] + "raise MyErr('never-returns', 0)") if l_.lstrip().startswith('return') else l_
+                 for l_ in lines]
+        b.features.add('never-returns')
+    elif planted or p < .72:
         hint = rng.choice(pool)
     elif p < .86:
         hint = None                      # unannotated return: the "unchecked" wrapper code path
